@@ -22,6 +22,7 @@ func init() {
 	vHarnesses["H_C19_cursor2"] = H_C19_cursor2
 	vHarnesses["H_C19_cursor3"] = H_C19_cursor3
 	vHarnesses["H_C19_out"] = H_C19_out
+	vHarnesses["H_C19_read"] = H_C19_read
 	vHarnesses["H_C06_ops"] = H_C06_ops
 	vHarnesses["H_C06_atoms"] = H_C06_atoms
 	vHarnesses["H_C06_numbers"] = H_C06_numbers
@@ -224,6 +225,12 @@ func H_C19_cursor2(inst int) {
 func H_C19_cursor3(inst int) {
 	i := newFull()
 	engine.VH_C19(&i.VM, inst, 3)
+}
+
+// H_C19_read: read/1 between character operations: the cursor stands right behind the end token.
+func H_C19_read(inst int) {
+	i := newFull()
+	engine.VH_C19_read(&i.VM, inst)
 }
 
 // H_C19_out: output goals reach the sink completely and in program order.
